@@ -303,4 +303,38 @@ theorem writeIndex_fault (f : Facts) (p : Plan) (oi : List Bool) (hf : f.all = t
     rw [this.1] at h
     exact absurd h this.2
 
+/-! ## durable before visible -/
+
+theorem syncedBeforeRename_writes (s : Suffix) (k : Nat) (rest : List Op) (d : Suffix → Bool) (h : d s = true) :
+    syncedBeforeRename (List.replicate k (.write s) ++ rest) d = syncedBeforeRename rest d := by
+  induction k with
+  | zero => simp
+  | succ k ih =>
+    simp only [List.replicate_succ, List.cons_append, syncedBeforeRename]
+    have : (fun x => if x = s then true else d x) = d := by
+      funext x; by_cases hx : x = s <;> simp [hx, h]
+    rw [this, ih]
+
+theorem syncedBeforeRename_writes_nil (s : Suffix) (k : Nat) (d : Suffix → Bool) (h : d s = true) :
+    syncedBeforeRename (List.replicate k (.write s)) d = true := by
+  have := syncedBeforeRename_writes s k [] d h
+  simpa [syncedBeforeRename] using this
+
+theorem sealTrace_syncedBeforeRename (c : Cfg) (f : Facts) (p : Plan) (oi os : List Bool) :
+    syncedBeforeRename (sealTrace c f p oi os).2 (fun _ => true) = true := by
+  obtain ⟨skip, keep⟩ := c
+  unfold sealTrace
+  generalize writeIndex f p { oracle := oi } = r
+  obtain ⟨k, hk, -⟩ := sdocsWrites_spec p.sdocs os
+  cases skip
+  · simp only [sortedDocsOps, Bool.false_eq_true, if_false, hk]
+    cases hs : (sdocsWrites p.sdocs os).1 <;> cases hr1 : r.1 <;> by_cases hc : r.2.calls = 0 <;>
+      cases hl : r.2.lost <;> cases keep <;>
+      simp only [Bool.and_true, Bool.and_false, Bool.false_eq_true, if_false, if_true,
+        List.cons_append, List.append_assoc, List.nil_append, List.append_nil, syncedBeforeRename] <;>
+      (first | rw [syncedBeforeRename_writes _ _ _ _ (by simp)] | rw [syncedBeforeRename_writes_nil _ _ _ (by simp)]) <;>
+      simp [syncedBeforeRename, indexOps, releaseOps, hc, hl]
+  · cases hr1 : r.1 <;> by_cases hc : r.2.calls = 0 <;> cases hl : r.2.lost <;> cases keep <;>
+      simp [syncedBeforeRename, indexOps, releaseOps, hc, hl, hr1]
+
 end SV.SealOps
